@@ -20,7 +20,10 @@ RULE = ("one case = (base?, route table, path). Route tables: 27 fixed tables (u
         "up to 12 siblings held in real tuples or in a StaticVec, with and without base) x paths built from the table's own flat routes with parameter "
         "values substituted (kind 'built') and mutations of those (trailing/double/removed slashes, appended and "
         "inserted characters, truncation) plus random short paths; a stream of strings without leading '/' is "
-        "compared model-vs-code only. A case is non-trivial when some route matched; distinct = distinct case hash.")
+        "compared model-vs-code only. Opcode-2 cases drive the REAL path builder (StaticPath::into_paths, "
+        "static_routes.rs) on every generated flat route, as registered ([Static(base)] + segments) and on each "
+        "of its expand_optionals() variants, with PRNG-drawn value lists per parameter name; every built path is "
+        "fed back to match_route. A case is non-trivial when some route matched; distinct = distinct case hash.")
 TRUSTED = [
     "Coq 8.16.1 kernel (coqc); no axioms: every theorem of Properties_C14.v is 'Closed under the global context'",
     "extraction to OCaml with ExtrOcamlBasic only, ocamlfind ocamlopt, extract/driver.ml sexp I/O",
@@ -29,6 +32,8 @@ TRUSTED = [
     "of 1-12 AnyNestedRoute, or StaticVec<AnyNestedRoute>>), RouteDefs::new/new_with_base) and calls RouteDefs::match_route, "
     "MatchNestedRoutes::match_nested, generate_routes, ExpandOptionals::expand_optionals; route ids are read from "
     "RouteMatchId's Debug form and made relative to the first id of the case",
+    "harness op 2: leptos_router::static_routes::{StaticPath::new(..).into_paths(Some(StaticParamsMap)), "
+    "ResolvedStaticPath} on the generated segments, built paths fed to RouteDefs::match_route",
     "modelled, not verified: str::chars / split_at / trim_end_matches / strip_prefix / trim_start_matches semantics on "
     "UTF-8 byte strings (transcribed in Router/Match.v, compared with the real functions on every case)",
     "the reference semantics of a flat route (Router/Flat.v and, independently, gen/c14.py): the path pattern "
@@ -124,6 +129,10 @@ def route_str(r):
 def describe(item):
     c = item["case"]
     base = ("base=%r " % txt(c[1][0])) if c[1] else ""
+    if c[0] == 2:
+        return "BUILD %sroutes=%s(%s) values=%r" % (
+            base, "vec" if len(c) > 4 and c[4] == 1 else "", "; ".join(route_str(r) for r in c[2]),
+            {txt(k): [txt(v) for v in vs] for k, vs in c[3]})
     return "%sroutes=%s(%s) path=%r" % (base, "vec" if len(c) > 4 and c[4] == 1 else "",
                                         "; ".join(route_str(r) for r in c[2]), txt(c[3]))
 
@@ -276,23 +285,8 @@ def ref_lookup(base, flats, path):
 
 
 # ---------------------------------------------------------------- oracle
-def oracle(item, impl):
-    if isinstance(impl, str):
-        return "harness error: " + impl
-    case = item["case"]
-    base, routes, path = case[1], case[2], case[3]
-    g_base, flats, expanded, m, nested = impl
-    kind = item.get("kind", "")
-    if kind == "ref-xcheck":
-        return None      # the same case is judged under its own kind; see coverage_extra
-    if not path or path[0] != 47:
-        return None      # not a request path: outside the property (correspondence only)
-    if g_base != base:
-        return "generate_routes() reports a different base"
-    # the table the integrations register: optional segments expanded
-    for f, ex in zip(flats, expanded):
-        if sorted(map(C.sx, ex)) != sorted(map(C.sx, expand(f))):
-            return "expand_optionals() is not 'every optional dropped or kept as a param'"
+def _judge_match(base, routes, flats, path, m):
+    """the iff / first-wins / parameter / partition demands on one match_route result"""
     if m == [-1]:
         return "match_route panicked"
     want = ref_lookup(base, flats, path)
@@ -325,6 +319,95 @@ def oracle(item, impl):
                 stripped = path[len(b):]
         if not (stripped[:len(joined)] == joined and stripped[len(joined):] in ([], [47])):
             return "matched parts + remainder do not partition the path"
+    return None
+
+
+def pm_get(pmap, name):
+    for k, vs in pmap:
+        if k == name:
+            return vs
+    return None
+
+
+def build_failures(item, impl):
+    """op 2 (the real path builder): yields (message, built path or None) for every demand of
+    the property's third sentence that fails: a path built from a route's segments with given
+    parameter values (non-empty, free of '/'; a splat value may contain but not start with
+    '/') is matched by its own table entry, hence by the router; the first table entry that
+    matches wins; and if that is the route the path was built from, the returned values are
+    the given ones.  Every built request path is also judged like any other path."""
+    case = item["case"]
+    base, routes, pmap = case[1], case[2], case[3]
+    g_base, flats, per_route = impl
+    if g_base != base:
+        yield "generate_routes() reports a different base", None
+        return
+    reg = ([[0, base[0]]] if base else [])
+    for i, (f, (unexp, exps)) in enumerate(zip(flats, per_route)):
+        if unexp == [-1]:
+            if any(sg[0] == 2 for sg in f):
+                yield "StaticPath::into_paths panics (todo!) on a route with an OptionalParam", None
+            else:
+                yield "StaticPath::into_paths panicked", None
+        for e, built in exps:
+            if built == [-1]:
+                yield "StaticPath::into_paths panicked on an expanded route", None
+                continue
+            names = [(sg[0], sg[1]) for sg in e if sg[0] in (1, 3)]
+            lists = [pm_get(pmap, n) for _, n in names]
+            if any(l is None for l in lists):
+                continue          # no values given for some parameter: nothing to build
+            combos = list(itertools.product(*lists))
+            if len(built) != len(combos):
+                yield "the builder did not produce one path per combination of the given values", None
+                continue
+            for (path, m), vals in zip(built, combos):
+                if not path or path[0] != 47:
+                    continue      # not a request path (the root route builds "")
+                msg = _judge_match(base, routes, flats, path, m)
+                if msg:
+                    yield msg, path
+                    continue
+                ok_vals = all(v and (47 not in v if k == 1 else v[0] != 47) for (k, _), v in zip(names, vals))
+                if not ok_vals:
+                    continue
+                if ref_match(reg + e, path) is None:
+                    yield "a path built from the route's segments is not matched by its own table entry", path
+                    continue
+                if m == []:
+                    yield "a path built from the route's segments is not matched", path
+                    continue
+                want = ref_lookup(base, flats, path)
+                if want is not None and want[0] == i and [v for _, v in m[2]] != [list(v) for v in vals]:
+                    yield "a path built from the route's segments does not return the given values", path
+
+
+def oracle(item, impl):
+    if isinstance(impl, str):
+        return "harness error: " + impl
+    case = item["case"]
+    if case[0] == 2:
+        for msg, _ in build_failures(item, impl):
+            return msg
+        return None
+    base, routes, path = case[1], case[2], case[3]
+    g_base, flats, expanded, m, nested = impl
+    kind = item.get("kind", "")
+    if kind == "ref-xcheck":
+        return None      # the same case is judged under its own kind; see coverage_extra
+    if not path or path[0] != 47:
+        return None      # not a request path: outside the property (correspondence only)
+    if g_base != base:
+        return "generate_routes() reports a different base"
+    # the table the integrations register: optional segments expanded
+    for f, ex in zip(flats, expanded):
+        if sorted(map(C.sx, ex)) != sorted(map(C.sx, expand(f))):
+            return "expand_optionals() is not 'every optional dropped or kept as a param'"
+    if m == [-1]:
+        return "match_route panicked"
+    msg = _judge_match(base, routes, flats, path, m)
+    if msg:
+        return msg
     if nested == [-1]:
         return "match_nested panicked"
     if nested[0] == 1:
@@ -451,7 +534,14 @@ def classify(item, impl, model):
     different observation is a new violation even inside a known class"""
     if impl != model:
         return None
-    return known_class_of(item["case"])
+    case = item["case"]
+    if case[0] == 2:
+        for msg, path in build_failures(item, impl):
+            if path is None:
+                return "F-C14-e" if "todo!" in msg else None
+            return known_class_of([0, case[1], case[2], path])
+        return None
+    return known_class_of(case)
 
 
 def _utf8(v):
@@ -468,12 +558,20 @@ def valid_case(item):
     last segment of a leaf route"""
     try:
         c = item["case"]
-        if len(c) not in (4, 5) or c[0] not in (0, 1) or (len(c) == 5 and c[4] != 1):
+        if len(c) not in (4, 5) or c[0] not in (0, 1, 2) or (len(c) == 5 and c[4] != 1):
             return False
         base, routes, path = c[1], c[2], c[3]
         if not (base == [] or (len(base) == 1 and _utf8(base[0]))):
             return False
-        if not _utf8(path):
+        if c[0] == 2:
+            names = []
+            for kv in path:
+                if not (len(kv) == 2 and _utf8(kv[0]) and kv[0] and all(_utf8(v) for v in kv[1])):
+                    return False
+                names.append(C.sx(kv[0]))
+            if len(set(names)) != len(names):
+                return False
+        elif not _utf8(path):
             return False
 
         def seg_ok(s):
@@ -505,7 +603,7 @@ def valid_case(item):
         # a known-finding case, and a new failure inside a known class (implementation and
         # model differ there) is reported as generated: shrinking by the oracle alone would
         # drift to the recorded behaviour of that class
-        if "known" in item:
+        if "known" in item and c[0] != 2:
             if item["known"] is None:
                 return known_class_of(c) is None
             return C.case_hash(c) == item.get("orig")
@@ -518,6 +616,11 @@ def nontrivial(item, model):
     # a case is non-trivial when something matched (either matcher entry point)
     if item.get("kind") == "ref-xcheck":
         return False
+    if item["case"][0] == 2:
+        try:
+            return any(m != [] for _, exps in model[2] for _, built in exps if built != [-1] for _, m in built)
+        except Exception:
+            return False
     try:
         return model[3] != [] or model[4][0] == 1
     except Exception:
@@ -633,6 +736,18 @@ def gen_routes(rng):
         if budget[0] <= 0 and out:
             break
         out.append(gen_route(rng, 2, budget))
+    return C.norm(out)
+
+
+def gen_pmap(rng, odd):
+    """prerendered values for the parameter names; odd: also empty / slash-carrying values"""
+    out = []
+    for n in NAMES:
+        if rng.random() < 0.08:
+            continue              # no values for this name: routes using it build nothing
+        pool = VALUES + (["", "/a", "a/b", "a/", "/"] if odd else [])
+        vs = [rng.choice(pool) for _ in range(rng.choice([1, 1, 2]))]
+        out.append([n, vs])
     return C.norm(out)
 
 
@@ -767,14 +882,16 @@ def generate(rng, tier):
     # reference and class predicates (two independent formulations of the reference).
     extra = []
     for it in items[::25]:
-        if it["kind"] != "raw-path":
+        if it["kind"] != "raw-path" and it["case"][0] == 0:
             extra.append(dict(case=[1] + it["case"][1:], kind="ref-xcheck", compare=False))
     items += extra
     for it in items:
+        if it["case"][0] == 2:
+            continue
         it["known"] = known_class_of(it["case"])
         if it["known"] is not None:
             it["orig"] = C.case_hash(it["case"])
-    items.sort(key=lambda it: it["known"] is not None)
+    items.sort(key=lambda it: it.get("known") is not None)
     return items
 
 
@@ -807,7 +924,19 @@ def _generate(rng, tier):
             if base and rng.random() < 0.8:
                 p = C.norm(base) + p
             yield dict(case=[0, nb, routes, p] + tail, kind="random")
-    # 3. arbitrary strings as paths (no leading '/'): correspondence only
+    # 3. the real path builder: StaticPath::into_paths on every flat route (and each of its
+    #    expansions) with generated parameter values, every built path fed back to match_route
+    for ti, routes in enumerate(fixed):
+        for b in ([], [C.norm("/b")]):
+            yield dict(case=[2, b, routes, gen_pmap(rng, False)], kind="build")
+    for _ in range(1500 if quick else 12000):
+        routes = gen_routes(rng)
+        base = rng.choice(BASES)
+        nb = [C.norm(base)] if base is not None else []
+        odd = rng.random() < 0.15
+        tail = [1] if rng.random() < 0.15 else []
+        yield dict(case=[2, nb, routes, gen_pmap(rng, odd)] + tail, kind="build-odd-values" if odd else "build")
+    # 4. arbitrary strings as paths (no leading '/'): correspondence only
     for _ in range(2000 if quick else 20000):
         routes = gen_routes(rng)
         p = C.norm("".join(rng.choice(ALPHA + ["a", "b"]) for _ in range(rng.randint(0, 6))))
@@ -847,7 +976,7 @@ def _shape_stats(case):
 
 def coverage_extra(results):
     n = bad = inst = inst_bad = 0
-    n_big = n_vec = n_opt_inside = 0
+    n_big = n_vec = n_opt_inside = n_built = n_built_matched = 0
     examples = []
     for r in results:
         it = r["item"]
@@ -855,8 +984,15 @@ def coverage_extra(results):
             big, vec = _shape_stats(it["case"])
             n_big += big
             n_vec += vec
-            if it.get("known") is None and any(s[0] == 2 for s in tree_leaf_segs(it["case"][2])):
+            if it["case"][0] == 0 and it.get("known") is None and any(
+                    s[0] == 2 for s in tree_leaf_segs(it["case"][2])):
                 n_opt_inside += 1
+            if it["case"][0] == 2 and not isinstance(r["impl"], str):
+                for _, exps in r["impl"][2]:
+                    for _, built in exps:
+                        if built != [-1]:
+                            n_built += len(built)
+                            n_built_matched += sum(1 for _, m in built if m not in ([], [-1]))
         if it.get("kind") != "ref-xcheck" or isinstance(r["impl"], str) or isinstance(r["model"], str):
             continue
         n += 1
@@ -875,6 +1011,7 @@ def coverage_extra(results):
                 inst_bad += 1
     return dict(cases_with_arity_above_6=n_big, cases_with_static_vec_children=n_vec,
                 cases_with_optionals_outside_known_classes=n_opt_inside,
+                paths_built_by_the_real_builder=n_built, built_paths_matched=n_built_matched,
                 reference_crosscheck_cases=n, reference_python_vs_coq_disagreements=bad,
                 reference_disagreement_examples=examples,
                 theorem_instances_outside_known_classes=inst, theorem_instances_violated=inst_bad)
